@@ -72,10 +72,13 @@ def reply_corpus(op, tier):
     raise AssertionError(op)
 
 
+DEBUG = [False]
+
+
 def observe(op, reply, seg, tier=None):
     """one execution: fresh session, scripted reply, the operation, two sentinels"""
     srv = W.ScriptedServer(store={"a": b"keep;\r\n", "z": b"stop;\r\n"}, active="a", version=(op in ("checkscript", "renamescript")))
-    s = wire.open_session(srv)
+    s = wire.open_session(srv, debug=DEBUG[0])
     if s.connect_outcome.kind != "ret" or s.connect_outcome.value is not True:
         return ("connect-failed", s.connect_outcome.brief())
     srv.script = [reply]
@@ -147,7 +150,8 @@ def classify(base, got):
 
 
 def op_task(t):
-    op, tier, lo, hi = t
+    op, tier, lo, hi = t[:4]
+    DEBUG[0] = len(t) > 4 and t[4]
     viols = []
     n = 0
     distinct = set()
@@ -183,9 +187,9 @@ def op_task(t):
                 sym = classify(base, got)
                 viols.append({
                     "property": "C05", "engine": "wire",
-                    "signature": ["C05", op, label.split("+")[0].rstrip("0123456789") if op != "getscript" else label.split("+")[0], sym],
+                    "signature": ["C05", op + ("/debug" if DEBUG[0] else ""), label.split("+")[0].rstrip("0123456789") if op != "getscript" else label.split("+")[0], sym],
                     "what": "%s with reply %r under segmentation %r: %r, unsegmented: %r" % (op, reply if isinstance(reply, bytes) else label, seg, got[:2], base[:2]),
-                    "case": {"op": op, "label": label, "reply_hex": reply.hex() if isinstance(reply, bytes) else None,
+                    "case": {"debug": DEBUG[0], "op": op, "label": label, "reply_hex": reply.hex() if isinstance(reply, bytes) else None,
                              "greeting": reply if op == "connect" else None, "seg": [kind, val]},
                     "witness": "%s reply=%r seg=%r" % (op, reply if isinstance(reply, bytes) else label, seg),
                     "observed": repr(got[:2])[:200],
@@ -202,6 +206,12 @@ def run(tier, seed):
         step = max(1, (total + 5) // 6)
         for lo in range(0, total, step):
             tasks.append((op, tier, lo, lo + step))
+    # the same replies with a client created with debug=True (its trace must not change what is read), non-ASCII replies only matter there
+    for op in ("listscripts", "getscript", "havespace"):
+        total = len(reply_corpus(op, tier))
+        step = max(1, (total + 3) // 4)
+        for lo in range(0, total, step):
+            tasks.append((op, tier, lo, lo + step, True))
     tasks.append(("connect", tier, 0, 0))
     tasks.append(("rename-emulated", tier, 0, 0))
     results = pool.run_tasks("checks.c05:op_task", tasks)
@@ -232,6 +242,7 @@ def run(tier, seed):
 def replay(payload):
     c = payload["case"]
     op = c["op"]
+    DEBUG[0] = bool(c.get("debug"))
     seg = tuple(c["seg"])
     if op == "connect":
         base, got = observe_connect(c["greeting"], None), observe_connect(c["greeting"], seg)
